@@ -33,7 +33,7 @@ func (in *Interp) unop(fr *frame, ins *ssa.UnOp, x Val) Val {
 		case *Term:
 			return in.tt.Neg(v)
 		case FloatV:
-			return FloatV{-v.f, v.bits}
+			return FloatV{f: -v.f, bits: v.bits}
 		}
 	case token.XOR:
 		return in.tt.BNot(x.(*Term))
@@ -214,6 +214,9 @@ func (in *Interp) binop(op token.Token, xt types.Type, x, y Val) Val {
 		}
 	case FloatV:
 		b := y.(FloatV)
+		if a.unk || b.unk {
+			panic(in.unsupported("arithmetic on an untracked float value"))
+		}
 		switch op {
 		case token.ADD:
 			return in.mkFloat(a.f+b.f, a.bits)
@@ -266,9 +269,9 @@ func (in *Interp) binop(op token.Token, xt types.Type, x, y Val) Val {
 
 func (in *Interp) mkFloat(f float64, bits int) FloatV {
 	if bits == 32 {
-		return FloatV{float64(float32(f)), 32}
+		return FloatV{f: float64(float32(f)), bits: 32}
 	}
-	return FloatV{f, 64}
+	return FloatV{f: f, bits: 64}
 }
 
 func (in *Interp) shift(op token.Token, signed bool, a, b *Term) *Term {
@@ -392,6 +395,9 @@ func (in *Interp) conv(dst, src types.Type, x Val) Val {
 				}
 				return tt.ZExt(v, w)
 			case FloatV:
+				if v.unk {
+					panic(in.unsupported("conversion of an untracked float value"))
+				}
 				if d.Info()&types.IsUnsigned != 0 {
 					return tt.BV(w, uint64(v.f))
 				}
@@ -404,6 +410,9 @@ func (in *Interp) conv(dst, src types.Type, x Val) Val {
 			}
 			switch v := x.(type) {
 			case FloatV:
+				if v.unk {
+					return FloatV{0, bits, true}
+				}
 				return in.mkFloat(v.f, bits)
 			case *Term:
 				if !v.IsConst() {
